@@ -104,7 +104,7 @@ Derive(c) ==
       rts == [j \in 0..n |-> RtC(c, j)]
       pairs == {<<GKR(rts[j], a), j>> : j \in 0..n, a \in Alerts}
   IN [root |-> c.root, routes |-> c.routes, integs |-> c.integs, inhibit |-> c.inhibit, windows |-> c.windows,
-      wait |-> c.wait, maxwait |-> c.maxwait, agc |-> c.agc,
+      wait |-> c.wait, maxwait |-> c.maxwait, agc |-> c.agc, maint |-> c.maint,
       drv |-> [rts |-> rts,
                chosen |-> [a \in Alerts |-> MatchRC(c, 0, a)],
                gkj |-> [gk \in {p[1] : p \in pairs} |-> (CHOOSE p \in pairs : p[1] = gk)[2]],
@@ -186,8 +186,8 @@ Entry(as, a)   == as[CHOOSE i \in 1..Len(as) : as[i].l = a]
 RootOnly(gw, gi, ri) == [rk |-> "{}", sel |-> "ALL", cont |-> FALSE, recv |-> "r1", gby |-> "g", gw |-> gw, gi |-> gi, ri |-> ri, mute |-> << >>, active |-> << >>]
 \* the delivery targets of the alerts: <<alert, group key, integration of the group's receiver>>
 EligDom == UNION {UNION {{<<a, gk, i>> : i \in IntegsOf(gk)} : gk \in GKeys(a)} : a \in Alerts}
-ObsInit == /\ now = 0 /\ cfg = Derive([root |-> RootOnly(0, 1, 1), routes |-> << >>, integs |-> <<[recv |-> "r1", name |-> "webhook/0", sr |-> TRUE]>>, inhibit |-> FALSE, windows |-> << >>, wait |-> 0, maxwait |-> 0, agc |-> 0])
-           /\ ver = << >> /\ sil = << >> /\ last = << >> /\ brk = << >> /\ fl = << >> /\ cancd = [seen |-> {}, dead |-> << >>, deadgk |-> {}, refl |-> {}, ing |-> << >>, mby |-> << >>, lastReload |-> 0 - 1]
+ObsInit == /\ now = 0 /\ cfg = Derive([root |-> RootOnly(0, 1, 1), routes |-> << >>, integs |-> <<[recv |-> "r1", name |-> "webhook/0", sr |-> TRUE]>>, inhibit |-> FALSE, windows |-> << >>, wait |-> 0, maxwait |-> 0, agc |-> 0, maint |-> 0])
+           /\ ver = << >> /\ sil = << >> /\ last = << >> /\ brk = << >> /\ fl = << >> /\ cancd = [seen |-> {}, dead |-> << >>, deadgk |-> {}, refl |-> {}, ing |-> << >>, mby |-> << >>, lastReload |-> 0 - 1, gone |-> << >>, born |-> << >>]
            /\ elig = << >> /\ chk = {}
 
 \* eligibility clocks (C01), recomputed at every step for the new instant
@@ -256,7 +256,7 @@ C04_Deadline ==
 
 (* --- environment events ------------------------------------------------ *)
 Cfg(c) ==
-  /\ cfg' = Derive(c) /\ now' = 0 /\ ver' = << >> /\ sil' = << >> /\ last' = << >> /\ brk' = << >> /\ fl' = << >> /\ cancd' = [seen |-> {}, dead |-> << >>, deadgk |-> {}, refl |-> {}, ing |-> << >>, mby |-> << >>, lastReload |-> 0 - 1]
+  /\ cfg' = Derive(c) /\ now' = 0 /\ ver' = << >> /\ sil' = << >> /\ last' = << >> /\ brk' = << >> /\ fl' = << >> /\ cancd' = [seen |-> {}, dead |-> << >>, deadgk |-> {}, refl |-> {}, ing |-> << >>, mby |-> << >>, lastReload |-> 0 - 1, gone |-> << >>, born |-> << >>]
   /\ elig' = << >> /\ chk' = {}
 
 Ingest(a, v) ==
@@ -270,6 +270,8 @@ Ingest(a, v) ==
                  \* since the key's last flush may flush (at once if that alert started more than group_wait ago)
                  !.ing = [gk \in DOMAIN @ \cup GKeys(a) |-> IF gk \in DOMAIN @ THEN @[gk]
                                                             ELSE IF v.start + Opt(gk).gw < now THEN now ELSE now + Opt(gk).gw],
+                 \* the first hand-over after a group was destroyed creates its successor
+                 !.born = [gk \in DOMAIN @ \cup (GKeys(a) \cap DOMAIN cancd.gone) |-> IF gk \in DOMAIN @ THEN @[gk] ELSE now],
                  !.refl = @ \cup {<<a, gk>> : gk \in {g \in GKeys(a) : \E x \in DOMAIN fl : fl[x].gk = g /\ a \in NamesOf(fl[x].alerts)}}]
   /\ chk' = {}
   /\ UNCHANGED <<now, cfg, sil, last, brk, fl>>
@@ -350,14 +352,14 @@ FlushBegin(ag, gk, as, tick) ==
        THEN /\ chk' = {"C06_group_of_unknown_route"}
             /\ UNCHANGED <<now, cfg, ver, sil, last, brk, fl, cancd, elig>>
      ELSE
-     /\ fl' = Put(fl, ag, [gk |-> gk, t |-> now, tick |-> tick, to |-> Timeout(gk), alerts |-> as, att |-> [i \in IntegsOf(gk) |-> NoAtt],
+     /\ fl' = Put(fl, ag, [gk |-> gk, t |-> now, tick |-> tick, okd |-> FALSE, to |-> Timeout(gk), alerts |-> as, att |-> [i \in IntegsOf(gk) |-> NoAtt],
                             tmust |-> TimeMuted(gk, tick) /\ TimeMuted(gk, now), tmay |-> TimeMuted(gk, tick) \/ TimeMuted(gk, now),
                             muted |-> {a \in names \cap Alerts : MutedAt(a, now)},
                             inhibited |-> {a \in names \cap Alerts : InhibitedAt(a, now)},
                             prevF |-> [i \in IntegsOf(gk) |-> IF <<gk, i>> \in DOMAIN last THEN last[<<gk, i>>].firing ELSE {}]])
      /\ cancd' = [cancd EXCEPT !.seen = @ \cup {ag}, !.refl = {p \in @ : p[2] # gk},
                                 \* ing: the first hand-over for the group key since its last flush began
-                                !.ing = Drop(@, {gk}),
+                                !.ing = Drop(@, {gk}), !.gone = Drop(@, {gk}), !.born = Drop(@, {gk}),
                                 !.mby = LET allInh == names # {} /\ \A a \in names \cap Alerts : InhibitedAt(a, now)
                                             \* a group seen for the first time (created, or re-created after its predecessor was
                                             \* destroyed and its marker deleted by the maintenance sweep - or not yet): unknown
@@ -467,7 +469,8 @@ FlushOk(ag) ==
   /\ chk' = IF Dead(ag) THEN {}
             ELSE IF ag \notin DOMAIN fl THEN {"C20_ok_outside_flush"}
             ELSE IF \E i \in DOMAIN fl[ag].att : Failed(fl[ag].att[i]) THEN {"C20_failure_not_reported"} ELSE {}
-  /\ UNCHANGED <<now, cfg, ver, sil, last, brk, fl, cancd, elig>>
+  /\ fl' = IF ~Dead(ag) /\ ag \in DOMAIN fl THEN [fl EXCEPT ![ag].okd = TRUE] ELSE fl
+  /\ UNCHANGED <<now, cfg, ver, sil, last, brk, cancd, elig>>
 
 \* end of a flush: what was owed has been delivered, retries went on until the deadline
 FlushDone(ag) ==
@@ -511,10 +514,18 @@ FlushDone(ag) ==
                 THEN {"C05_resolution_not_notified_by_flush"} ELSE {})
         \cup (IF \E i \in DOMAIN f.att : accepting(i) /\ newResolved(i) # {} /\ entryExpired(i) /\ ~(newResolved(i) \subseteq knownResolved(i))
                 THEN {"C05_F8_resolution_forgotten_after_log_entry_expired"} ELSE {})
+      \* the flush succeeded, every alert it held was resolved and has not been updated since, and nothing
+      \* was handed to the group meanwhile: DeleteIfNotModified leaves it empty, the group is destroyed and
+      \* the next maintenance sweep deletes it together with its muted marker
+      destroyed == /\ ag \in DOMAIN fl /\ f.okd /\ NamesOf(f.alerts) # {}
+                   /\ \A a \in NamesOf(f.alerts) : a \in DOMAIN ver /\ Entry(f.alerts, a).status = "resolved" /\ ver[a].upd = Entry(f.alerts, a).upd
+                   /\ ~\E a \in Members(f.gk) \cap DOMAIN ver : ver[a].upd > f.t \/ (a \notin NamesOf(f.alerts) /\ FiringAt(a, now))
+                   /\ f.gk \notin DOMAIN cancd.ing
   IN IF Dead(ag) THEN /\ chk' = {} /\ UNCHANGED <<now, cfg, ver, sil, last, brk, fl, cancd, elig>>
      ELSE /\ fl' = IF ag \in DOMAIN fl THEN Drop(fl, {ag}) ELSE fl
           /\ chk' = bad
-          /\ UNCHANGED <<now, cfg, ver, sil, last, brk, cancd, elig>>
+          /\ cancd' = IF destroyed THEN [cancd EXCEPT !.gone = Put(@, f.gk, now)] ELSE cancd
+          /\ UNCHANGED <<now, cfg, ver, sil, last, brk, elig>>
 
 \* the dispatcher is being stopped (config reload, shutdown): its groups die; a flush in
 \* progress is cancelled and a dying group may still run one more flush with a dead
@@ -523,7 +534,7 @@ Cancelling ==
   /\ cancd' = [seen |-> cancd.seen,
                dead |-> [x \in DOMAIN cancd.dead \cup cancd.seen \cup DOMAIN fl |->
                            IF x \in DOMAIN cancd.dead THEN cancd.dead[x] ELSE now],
-               deadgk |-> cancd.deadgk \cup {fl[x].gk : x \in DOMAIN fl}, refl |-> cancd.refl, ing |-> cancd.ing, mby |-> cancd.mby, lastReload |-> cancd.lastReload]
+               deadgk |-> cancd.deadgk \cup {fl[x].gk : x \in DOMAIN fl}, refl |-> cancd.refl, ing |-> cancd.ing, mby |-> cancd.mby, lastReload |-> cancd.lastReload, gone |-> cancd.gone, born |-> cancd.born]
   /\ fl' = << >>
   /\ chk' = {}
   /\ UNCHANGED <<now, cfg, ver, sil, last, brk, elig>>
@@ -544,7 +555,9 @@ Reloading(integs, routes) ==
                           LET ts == {Min2(Max2(now, ver[a].start + Opt(g).gw), now + Opt(g).gw) : a \in {x \in DOMAIN ver : g \in GKeys(x)}}
                           IN CHOOSE m \in ts : \A x \in ts : m <= x],
                \* the marker of a stopped dispatcher's group may be gone or still there
-               mby |-> [g \in DOMAIN cancd.mby |-> [cancd.mby[g] EXCEPT !.known = FALSE]], lastReload |-> now]
+               mby |-> [g \in DOMAIN cancd.mby |-> [cancd.mby[g] EXCEPT !.known = FALSE]], lastReload |-> now,
+               \* the stopped dispatcher's sweep no longer collects anything
+               gone |-> << >>, born |-> << >>]
   /\ fl' = << >>
   /\ cfg' = Derive([cfg EXCEPT !.integs = integs, !.routes = routes])
   /\ elig' = [p \in {q \in DOMAIN elig : \E x \in SeqToSet(integs) : x.recv = Opt(q[2]).recv /\ x.name = q[3]} |-> elig[p]]
@@ -624,6 +637,14 @@ ApiGroups(list) ==
         \cup (IF \E j \in 1..Len(list) : \E x \in SeqToSet(list[j].st) :
                    x.l \in Alerts /\ FiringAt(x.l, now) /\ ((x.ninh > 0) # InhibitedAt(x.l, now))
                 THEN {"C03_api_groups_inhibition_status_differs_from_rule"} ELSE {})
+        \* C15: a group re-created after its predecessor was destroyed and collected (a maintenance
+        \* sweep ago or longer, no reload in between) starts without a muted marker
+        \cup (IF \E j \in 1..Len(list) : Cardinality(Cand(list[j])) = 1 /\
+                   LET gk == CHOOSE x \in Cand(list[j]) : TRUE IN
+                   /\ cfg.maint > 0 /\ gk \in DOMAIN cancd.born /\ gk \in DOMAIN cancd.gone /\ gk \in DOMAIN cancd.ing
+                   /\ cancd.born[gk] - cancd.gone[gk] > cfg.maint + 5 * SchedSlack
+                   /\ list[j].mutedby # << >>
+                THEN {"C15_api_stale_muted_state_of_collected_group"} ELSE {})
         \* C15: the group is reported as muted, with the interval names, as of its last flush
         \cup (IF \E j \in 1..Len(list) : Cardinality(Cand(list[j])) = 1 /\
                    LET gk == CHOOSE x \in Cand(list[j]) : TRUE IN
